@@ -1417,3 +1417,14 @@ package pfcp
 //@ writers pfcp.RemoteNode.sess[] serves C05 = pfcp.RemoteNode.NewSess pfcp.RemoteNode.DeleteSess
 //@ writers pfcp.PfcpServer.rnodes[] serves C05 = pfcp.PfcpServer.UpdateNodeID pfcp.PfcpServer.handleAssociationSetupRequest
 //@ writers pfcp.Sess.q[] serves C13 = pfcp.Sess.Push
+
+// ---------------------------------------------------------------------------------------------
+// Goroutine confinement (C17): session, node and transaction state belongs to the event loop.  Every other goroutine
+// of the process (the UDP receiver, transaction timers, the report producers of the forwarder, the shutdown listener)
+// reaches none of these fields; the constructor writes them before the loop exists.  The transaction fields a timer
+// callback reads (server, id) are set by the constructors only (writers obligations) and are not in the set.
+//@ confined serves C17 root pfcp.PfcpServer.main init pfcp.NewPfcpServer = pfcp.PfcpServer.lnode pfcp.PfcpServer.rnodes pfcp.PfcpServer.txTrans pfcp.PfcpServer.rxTrans pfcp.PfcpServer.txSeq pfcp.PfcpServer.recoveryTime pfcp.LocalNode.* pfcp.RemoteNode.* pfcp.Sess.* pfcp.PDRInfo.* pfcp.URRInfo.* pfcp.TxTransaction.*-server-id pfcp.RxTransaction.*-server-id
+//@ writers pfcp.TxTransaction.server serves C17 = pfcp.NewTxTransaction
+//@ writers pfcp.TxTransaction.id serves C17 = pfcp.NewTxTransaction
+//@ writers pfcp.RxTransaction.server serves C17 = pfcp.NewRxTransaction
+//@ writers pfcp.RxTransaction.id serves C17 = pfcp.NewRxTransaction
